@@ -258,6 +258,14 @@ impl Monitor for C12L {
             return;
         }
         out.stats.inc("c12l.decisions");
+        for (i, b) in ctx.world.conns.iter().enumerate() {
+            if let Some(msg) = crate::ksim::sel::liveness_depends_on_guard(b, ctx.now) {
+                out.violate("C12.state_touched", "liveness_verdict_shell", ctx.idx, format!("link {i}: {msg}"));
+            }
+            if b.verif_private().conn_timeout_ms > 5000 && b.verif_private().stall_latched_since_ms != 0 && b.last_received.is_some_and(|t| ctx.now.saturating_sub(t) > 5000) {
+                out.probe("c12l.latched_silent_beyond_default_timeout");
+            }
+        }
         let got_something = |i: usize| {
             let (p, m) = (&ctx.pre[i], &ctx.mid[i]);
             m.queued != p.queued || ctx.wire.iter().any(|w| Some(w.fd) == p.fd)
